@@ -158,7 +158,10 @@ def detector_configs():
         Cfg("SeededBinarySegmentation/tuned", S("SeededBinarySegmentation", change_score=S("CUSUM"), **{**sbs, "threshold_scale": None}),
             ("plain", {"min_segment_length": 2})),
         Cfg("SeededBinarySegmentation/nested", S("SeededBinarySegmentation", change_score=L2, **sbs),
-            ("nested", "change_score__param", None, 0.5), quick=False),
+            ("nested", "change_score__param", None, 0.5)),
+        # two levels down: the cost inside the change score inside the detector
+        Cfg("MovingWindow/nested2", S("MovingWindow", change_score=S("ChangeScore", cost=L2), **mw),
+            ("nested", "change_score__cost__param", None, 0.5)),
         Cfg("CAPA/nested", S("CAPA", collective_saving=S("L2Cost", param=0.0), point_saving=S("L2Cost", param=0.0), **capa),
             ("nested", "collective_saving__param", 0.0, 0.5)),
         Cfg("CAPA/default-savings", S("CAPA", collective_saving=None, point_saving=None, **capa),
@@ -860,7 +863,7 @@ def run(tier="quick", seed=0, repo="/repo"):
     bound = (f"histories of length <= {L} over construct/clone/set_params/fit(D1|D2)/predict|transform|transform_scores(D1|D2) "
              f"[scorers: evaluate(2 cut sets)] on {nd} detector and {len(scorer_configs())} scorer configurations (7 detector, 8 scorer "
              f"classes); {npairs} sharing pairs, interleavings of length <= {3 if quick else 4}; {len(UPDATE_SCRIPTS)} update scripts x 3 "
-             f"pandas containers x 2 index types; {len(CONTAINERS)} containers; D1 12x1, D2 10x2"
+             f"pandas containers x 2 index types; {len(CONTAINERS)} containers; D1 12x1, D2 10x2, D3 9x1 (last call of a detector history only)"
              + ("" if quick else "; length-4 detector histories keep transform as the last call only and run on the 7 main "
                 "configurations, length 3 has the full alphabet on all; length-4 interleavings on the 6 'deep' pairs"))
     return rec.result(RULE, bound, exhaustive=True, timing=timing)
